@@ -10,7 +10,7 @@
   judged by the proved oracle (C01) and by the stability relations of `Driver.History`.
 -/
 import Hw.Topo.HistoryLemmas
-import Hw.Topo.InsertLemmas
+import Hw.Topo.InsertWF
 namespace Hw.Props.C02
 open Hw.Topo Hw.Topo.Hist
 
@@ -137,6 +137,16 @@ theorem C02_group_insert (filterGroup rootCpuset rootNodeset : Nat) (numas : Lis
     (a : GArgs) (hL : Lam root) (key : Nat) (r : Res)
     (h : insertGroup filterGroup rootCpuset rootNodeset numas root newGp a = .core key r) : Good newGp root r :=
   insertGroup_good filterGroup rootCpuset rootNodeset numas root newGp a hL key r h
+
+open Hw.Topo.Ins in
+/-- … and for EVERY well-formed topology (the C01 predicate `WF`): the tree of its normal objects keyed by cpuset is laminar, so
+the core of `hwloc_topology_insert_group_object` never loses an object on it and yields a laminar tree with exactly the
+objects `Good` states — no hypothesis left besides `WF d` -/
+theorem C02_group_insert_wf (d : Dump) (h : WF d) (root : Obj) (hr : root ∈ d.objs) (fuel : Nat)
+    (filterGroup rootCpuset rootNodeset : Nat) (numas : List (Nat × Nat)) (newGp : Nat) (a : GArgs) (key : Nat) (r : Res)
+    (hi : insertGroup filterGroup rootCpuset rootNodeset numas (treeH d fuel root) newGp a = .core key r) :
+    Good newGp (treeH d fuel root) r :=
+  insertGroup_good filterGroup rootCpuset rootNodeset numas _ newGp a (lam_treeH h fuel root hr) key r hi
 
 open Hw.Topo.Ins in
 /-- the executable laminarity check the driver evaluates on the tree of every real topology before a Group insertion is sound -/
